@@ -1,7 +1,7 @@
 """C16 -- read_asdf returns exactly the requested particle columns."""
 import ast
 
-from ..core.srcmodel import clone, dotted, unparse, walk_no_nested, AnalysisError, names_in, stores_in, fold_str
+from ..core.srcmodel import clone, dotted, unparse, walk_no_nested, AnalysisError, names_in, stores_in, fold_str, clone_pos
 
 RA = 'abacusnbody/data/read_abacus.py'
 BP = 'abacusnbody/data/bitpacked.py'
@@ -82,23 +82,50 @@ def run(chk):
             chk.check(ok, 'C16-R1', RA, Q, f"column '{name}' added iff '{name}' in load", '',
                       f"column '{name}' is added under \"{unparse(p.test) if isinstance(p, ast.If) else None}\": requested and returned column sets differ", node=a)
     # pid fields
-    pk = [n for n in walk_no_nested(fn) if isinstance(n, ast.Assign) and unparse(n.targets[0]) == 'pid_kwargs' and isinstance(n.value, ast.DictComp)]
-    okp = False
-    fields = None
-    if len(pk) == 1:
-        dc = pk[0].value
-        k = dc.generators[0].target.id if isinstance(dc.generators[0].target, ast.Name) else None
-        fields = val(dc.generators[0].iter, {})
-        okp = k is not None and unparse(dc.key) == k and unparse(dc.value) in (f'{k} in load', f'({k} in load)') and fields is not None
+    # The request flags handed to unpack_pids: explicit keywords and **mappings (a dict literal or a comprehension over a literal
+    # tuple of names, possibly bound to a local first) are flattened into field -> flag expression; each accepted field must get
+    # exactly the membership test of its own name.
+    import copy as _copy
+    from ..core.srcmodel import single_defs
+    ldefs_ = single_defs(fn)
+    call = [n for n in walk_no_nested(fn) if isinstance(n, ast.Call) and dotted(n.func) == 'unpack_pids']
     up = src.func(BP, 'unpack_pids')
     accepted = {a.arg for a in up.args.args} & {'pid', 'lagr_pos', 'tagged', 'density', 'lagr_idx'}
-    okp = okp and set(fields or ()) == accepted
+    flags, flat_ok = {}, len(call) == 1
+    if flat_ok:
+        for k_ in call[0].keywords:
+            if k_.arg is not None:
+                flags[k_.arg] = unparse(k_.value)
+                continue
+            v_ = k_.value
+            if isinstance(v_, ast.Name) and v_.id in ldefs_:
+                v_ = ldefs_[v_.id]
+            if isinstance(v_, ast.Dict) and all(isinstance(x, ast.Constant) and isinstance(x.value, str) for x in v_.keys):
+                for kk, vv in zip(v_.keys, v_.values):
+                    flags[kk.value] = unparse(vv)
+            elif isinstance(v_, ast.DictComp) and len(v_.generators) == 1 and not v_.generators[0].ifs and isinstance(v_.generators[0].target, ast.Name) \
+                    and isinstance(val(v_.generators[0].iter, {}), (tuple, list)):
+                kv = v_.generators[0].target.id
+                for elt in val(v_.generators[0].iter, {}):
+                    class _S(ast.NodeTransformer):
+                        def visit_Name(s_, n_):
+                            return ast.Constant(value=elt) if n_.id == kv and isinstance(n_.ctx, ast.Load) else n_
+                    key_ = _S().visit(clone_pos(v_.key))
+                    if not (isinstance(key_, ast.Constant) and key_.value == elt):
+                        flat_ok = False
+                        continue
+                    flags[elt] = unparse(_S().visit(clone_pos(v_.value)))
+            else:
+                flat_ok = False
+    fields = tuple(f for f in flags if f in {'pid', 'lagr_pos', 'tagged', 'density', 'lagr_idx'}) if flat_ok else None
+    wrong = {f: flags.get(f) for f in sorted(accepted) if flags.get(f) not in (f"'{f}' in load", f"('{f}' in load)", f"bool('{f}' in load)")}
+    okp = flat_ok and not wrong and set(fields or ()) == accepted
     chk.check(okp, 'C16-R1', RA, Q, 'PID fields requested from unpack_pids iff in load', f'{fields}',
-              f'pid_kwargs = {unparse(pk[0].value) if pk else None}; unpack_pids accepts {sorted(accepted)}: a PID-derived column would be dropped or always produced', node=pk[0] if pk else fn)
+              f'request flags of unpack_pids: {wrong if flat_ok else "not a literal mapping"}; unpack_pids accepts {sorted(accepted)}: a PID-derived column would be dropped or always produced',
+              node=call[0] if call else fn)
     pl = [n for n in walk_no_nested(fn) if isinstance(n, ast.For) and 'cols.items()' in unparse(n.iter)]
     okl = len(pl) == 1 and any(isinstance(b, ast.Expr) and 'table.add_column(col, name=n' in unparse(b) for b in pl[0].body)
-    call = [n for n in walk_no_nested(fn) if isinstance(n, ast.Call) and dotted(n.func) == 'unpack_pids']
-    okl = okl and len(call) == 1 and any(k.arg is None and unparse(k.value) == 'pid_kwargs' for k in call[0].keywords)
+    okl = okl and len(call) == 1
     chk.check(okl, 'C16-R1', RA, Q, 'every array unpack_pids returns becomes a column of the same name', '', 'returned PID arrays are not all added under their own names', node=pl[0] if pl else fn)
     if literal < 3:
         raise AnalysisError('read_asdf: pos/vel/aux column additions not recognised')
@@ -264,6 +291,22 @@ def run(chk):
     # not every Abacus header carries (SimSet is absent from the package's own example simulation): it is read with .get, or under a
     # test that has established which kind of header this is
     hreq, hbad = [], []
+    # local names whose value reaches an argument of a decoder call (backwards closure over plain assignments)
+    to_decoder = set()
+    for n in walk_no_nested(fn):
+        if isinstance(n, ast.Call) and (dotted(n.func) or '').startswith('unpack_'):
+            for a_ in list(n.args) + [k_.value for k_ in n.keywords]:
+                to_decoder |= {x.id for x in ast.walk(a_) if isinstance(x, ast.Name)}
+    grew = True
+    while grew:
+        grew = False
+        for n in walk_no_nested(fn):
+            if isinstance(n, ast.Assign) and len(n.targets) == 1 and isinstance(n.targets[0], ast.Name) and n.targets[0].id in to_decoder:
+                new_ = {x.id for x in ast.walk(n.value) if isinstance(x, ast.Name)} - to_decoder
+                if new_:
+                    to_decoder |= new_
+                    grew = True
+    to_decoder -= {'header', 'data', 'table', 'load', 'kwargs', 'dtype'}
     for n in walk_no_nested(fn):
         if isinstance(n, ast.Subscript) and isinstance(n.value, ast.Name) and n.value.id == 'header' and isinstance(n.ctx, ast.Load) \
                 and isinstance(n.slice, ast.Constant) and isinstance(n.slice.value, str):
@@ -272,7 +315,7 @@ def run(chk):
             while q is not None and q is not fn:
                 if isinstance(q, ast.Call) and (dotted(q.func) or '').startswith('unpack_'):
                     decoder_arg = True
-                if isinstance(q, ast.Assign) and unparse(q.targets[0]) == 'ppd':
+                if isinstance(q, ast.Assign) and len(q.targets) == 1 and isinstance(q.targets[0], ast.Name) and q.targets[0].id in to_decoder:
                     decoder_arg = True
                 if isinstance(q, ast.If) and child in q.body:
                     # an enclosing test that compares a header field obtained with .get against a constant establishes the schema,
